@@ -425,6 +425,7 @@ pub fn strategy(p: &crate::gen::GenProfile) -> impl proptest::strategy::Strategy
         iter_open: 0,
         iter_step: 0,
         fill: 0,
+        swapped: 0,
     };
     (crate::gen::case(p), crate::gen::op(&tp)).prop_map(|(mut c, mut t)| {
         if let Op::Ingest { pre_writes, .. } = &mut t {
